@@ -270,9 +270,14 @@ def member_queries(m):
     """queries that reach into every listed process: P.v, and T(0, ..).v for process sets with free parameters (typed against the built document)"""
     qs = []
     for n in [x for grp in m.system for x in grp]:
-        info = m.done[n]
+        info = m.done.get(n)
+        if info is None:       # a mutation put a name into the system line that denotes nothing
+            continue
         p = n + ('(%s)' % ', '.join(['0'] * info['unbound']) if info['unbound'] else '')
-        t = [t for t in m.templates if t.name == info['template']][0]
+        ts = [t for t in m.templates if t.name == info['template']]
+        if not ts:             # a mutation renamed the template
+            continue
+        t = ts[0]
         for d in t.decls:
             for v in d.vars:
                 qs.append('E<> %s.%s == %s.%s' % (p, v[0], p, v[0]))
